@@ -5,7 +5,7 @@ From Coq Require Import Sorted Permutation.
 From PG Require Import Lib.Str Model.TALES Proofs.TALESFacts Model.TALProg Model.TALProgSpec Proofs.TALProgFacts
                        Model.TALCompile Proofs.TALCompileFacts Model.TALESEval Proofs.TALESEvalFacts
                        Model.TALVM Model.TALOut Proofs.TALOutFacts Proofs.TALCompileWf Proofs.TALVMTerm
-                       Model.TALSpec Proofs.TALSpecFacts.
+                       Model.TALSpec Proofs.TALSpecFacts Model.TALSpecFull Proofs.TALSpecFullFacts.
 Local Open Scope N_scope.
 
 (* ---- compiled programs are structurally well formed ----
@@ -236,14 +236,51 @@ Print Assumptions C17_compiler_correct_partial.
    depends on a changing context), METAL, and the proof that parse_forest (compile (events t)) is the
    tree t itself (today: chk_compile + chk_spec compare with the real compiler and the real expansion
    on every run, and the differential oracle covers all statements). *)
-Theorem C17_expand_spec_partial :
+Theorem C17_expand_spec_stage1_partial :
   forall (val : Type) (eval : str -> list (str * str) -> val) (v_nothing v_default v_truth : val -> bool)
-         (v_text : val -> str) (p : program) (t : symtab) (f : list tnode),
-    parse_forest (S (List.length p)) t 0 p = Some (f, []) ->
+         (v_text : val -> str) (p : program) (t : symtab) (f : list TALSpec.tnode),
+    TALSpec.parse_forest (S (List.length p)) t 0 p = Some (f, []) ->
     forall c, exists fuel mf,
       expand1 val eval v_nothing v_default v_truth v_text p t fuel c = Done mf /\
-      d_out (dat (dstate val) mf) = spec_forest val eval v_nothing v_default v_truth v_text f /\
-      d_stack (dat (dstate val) mf) = [] /\
-      c_sc (cx (dstate val) mf) = c_sc c /\ sstack (dstate val) mf = [] /\ pc (dstate val) mf = List.length p.
+      TALSpec.d_out (dat (TALSpec.dstate val) mf) = TALSpec.spec_forest val eval v_nothing v_default v_truth v_text f /\
+      TALSpec.d_stack (dat (TALSpec.dstate val) mf) = [] /\
+      c_sc (cx (TALSpec.dstate val) mf) = c_sc c /\ sstack (TALSpec.dstate val) mf = [] /\ pc (TALSpec.dstate val) mf = List.length p.
 Proof. exact TALSpecFacts.expand_spec_parsed. Qed.
+Print Assumptions C17_expand_spec_stage1_partial.
+
+(* ---- all six TAL statements: define, condition, repeat, content | replace, attributes, omit-tag ----
+   Model/TALSpecFull.v: the environment (simpleTALES.Context: locals, globals, local stack, repeat map,
+   repeat variables and their positions) is an ABSTRACT type E with abstract operations eval, push / pop
+   locals, set local / global, add / advance / remove a repeat variable; values are abstract (is nothing,
+   is default, truth, text, len).  The data instance of the VM performs these operations as cmdDefine,
+   cmdRepeat, cmdEndTagEndScope do; the specification is a tree walk: define statements one after the
+   other, a false condition or an empty repeat ends the element, tal:repeat writes one instance per item
+   (each from the element's own attributes, the environment threaded through the instances and
+   through the children), local defines are popped when the element ends.
+   For EVERY environment type and operations, every program that reads back as a forest f, every
+   context and initial environment: the expansion terminates, has written exactly what the
+   specification writes, has left exactly the environment the specification leaves (the same
+   operations in the same order), with data stack, scopes and scope stack restored.
+   `_partial`: METAL is not in the data instance / specification, and "parse_forest (compile
+   (events t)) is the tree t" is not proved (chk_compile, chk_spec and chk_spec_full compare the real
+   compiler and the real expansion — output AND number/order of Context operations — on every run). *)
+Theorem C17_expand_spec_partial :
+  forall (val E : Type) (eval : E -> str -> list (str * str) -> val) (e_push e_pop : E -> E)
+         (e_local e_global : E -> str -> val -> E) (e_add_repeat : E -> str -> val -> E)
+         (e_next_repeat e_remove_repeat : E -> str -> E) (v_nothing v_default v_truth : val -> bool)
+         (v_text : val -> str) (v_len : val -> option nat) (p : program) (t : symtab) (f : list TALSpecFull.tnode),
+    TALSpecFull.parse_forest (S (List.length p)) t 0 p = Some (f, []) ->
+    forall (c : ctx) (env : E), exists fuel mf,
+      expand_tal val E eval e_push e_pop e_local e_global e_add_repeat e_next_repeat e_remove_repeat
+                 v_nothing v_default v_truth v_text v_len p t fuel c env = Done mf /\
+      TALSpecFull.d_out (dat (TALSpecFull.dstate val E) mf) =
+        fst (TALSpecFull.spec_forest val E eval e_push e_pop e_local e_global e_add_repeat e_next_repeat e_remove_repeat
+                                     v_nothing v_default v_truth v_text v_len env f) /\
+      TALSpecFull.d_env (dat (TALSpecFull.dstate val E) mf) =
+        snd (TALSpecFull.spec_forest val E eval e_push e_pop e_local e_global e_add_repeat e_next_repeat e_remove_repeat
+                                     v_nothing v_default v_truth v_text v_len env f) /\
+      TALSpecFull.d_stack (dat (TALSpecFull.dstate val E) mf) = [] /\
+      c_sc (cx (TALSpecFull.dstate val E) mf) = c_sc c /\ sstack (TALSpecFull.dstate val E) mf = [] /\
+      pc (TALSpecFull.dstate val E) mf = List.length p.
+Proof. exact TALSpecFullFacts.expand_tal_spec. Qed.
 Print Assumptions C17_expand_spec_partial.
